@@ -103,7 +103,12 @@ func vtC09PctPtr(v int64) *int64 {
 	return ptr.To[int64](v)
 }
 
-func vtC09BRun(x []int64) []int64 {
+func vtC09BRun(x []int64) []int64 { return vtC09BRunWith(x, nil, nil) }
+
+// vtC09BRunWith: with cfg == nil the cluster strategy is the one encoded in x; otherwise the node's
+// strategy is resolved from cfg (stream "cfg": the handler's cache) and the 7 strategy integers of x
+// are ignored. labels are added to the node.
+func vtC09BRunWith(x []int64, cfg *configuration.ColocationCfg, labels map[string]string) []int64 {
 	vtC09SchemeOnce.Do(func() {
 		vtC09Scheme = runtime.NewScheme()
 		_ = clientgoscheme.AddToScheme(vtC09Scheme)
@@ -341,7 +346,13 @@ func vtC09BRun(x []int64) []int64 {
 		lbl(extension.LabelCPUReclaimRatio, k1, h1)
 		lbl(extension.LabelMemoryReclaimRatio, k2, h2)
 	}
-	strategy = sloconfig.GetNodeColocationStrategy(&configuration.ColocationCfg{ColocationStrategy: *strategy}, node)
+	for k, v := range labels {
+		node.Labels[k] = v
+	}
+	if cfg == nil {
+		cfg = &configuration.ColocationCfg{ColocationStrategy: *strategy}
+	}
+	strategy = sloconfig.GetNodeColocationStrategy(cfg, node)
 
 	oldClock := Clock
 	Clock = vtclock.NewFakeClock(vtC09Now)
